@@ -73,7 +73,7 @@ type S struct {
 	// pinned keeps every object whose address is used as an identity (closed
 	// channels, operation objects) reachable until the execution ends, so that
 	// the garbage collector cannot hand the same address to another object.
-	pinned []any
+	pinned    []any
 	Trace     []string
 	KeepTrace bool
 }
